@@ -388,6 +388,9 @@ class Lib:
             if name == "BayesianNetwork":
                 g.fields["cpds"] = Coll("list", Opaque, None, items=[])
                 g.fields["__opaque__"] = {"add_cpds": OpaqueFn("add_cpds", Opaque, pure=False)}
+            if name == "MarkovNetwork":
+                g.fields["factors"] = Coll("list", Opaque, None, items=[])
+                g.fields["__opaque__"] = {"add_factors": OpaqueFn("add_factors", Opaque, pure=False)}
             return g
         if name == "DynamicNode" and len(args) == 2:
             ensure_dn(ex)
